@@ -444,6 +444,11 @@ class PyWriter(Writer):
        'stray-eoo'      definite explicit wrapper over a non-string primitive is still followed by 00 00
                         in indefinite mode
        'real-nr3-nodot' decimal REAL written 123E11 instead of 123.E11
+       'real-default-float'
+                        DEFAULT omission of a REAL component is decided on float() images: raises
+                        OverflowError beyond the float range, treats values that underflow alike
+       'time-fraction-zeros'
+                        CER/DER: every 0 among the first fraction digits of a GeneralizedTime is deleted
        'emptyable-optional'
                         BER: an absent OPTIONAL component whose type is a SEQUENCE/SET without mandatory
                         members is written as present-and-empty; CER/DER: an OPTIONAL component whose
@@ -500,6 +505,12 @@ class PyWriter(Writer):
                 self.used.add('emptyable-optional')
                 return b''
             return self.frame(tag, True, content)
+        if k == 'useful' and T[1] == 'GeneralizedTime' and self.codec in ('CER', 'DER') \
+                and 'time-fraction-zeros' in self.emulate:
+            v2 = py_time_trim(v)
+            if v2 != v:
+                self.used.add('time-fraction-zeros')
+            return self.string(tag, T, v2)
         if k in U.STRINGISH:
             return self.string(tag, T, v)
         if k == 'bool':
@@ -519,12 +530,14 @@ class PyWriter(Writer):
             nbits, x = v
             data = whole[1:]
             pad = whole[0]
-            if not self.chunk or len(data) <= self.chunk:
+            # BER mode: maxChunkSize counts data octets; CER: 1000 contents octets incl. the pad octet
+            chunk = self.chunk - 1 if self.codec == 'CER' else self.chunk
+            if not chunk or len(data) <= chunk:
                 return self.frame(tag, False, whole)
             segs = []
-            for i in range(0, len(data), self.chunk):
-                part = data[i:i + self.chunk]
-                last = i + self.chunk >= len(data)
+            for i in range(0, len(data), chunk):
+                part = data[i:i + chunk]
+                last = i + chunk >= len(data)
                 segs.append(ident('U', 3, False) + length_min(1 + len(part)) + bytes([pad if last else 0]) + part)
             return self.frame(tag, True, b''.join(segs))
         if not self.chunk or len(whole) <= self.chunk:
@@ -548,11 +561,18 @@ class PyWriter(Writer):
         for name, ft, pres, dv in T[1]:
             if name in v:
                 fv = v[name]
-                if pres == 'def' and U.canon(ft, fv) == U.canon(ft, dv):
+                if pres == 'def' and U.base_of(ft)[0] == 'real' and 'real-default-float' in self.emulate:
+                    # the library decides DEFAULT omission of REALs on their float() images
+                    same = py_real_float(fv) == py_real_float(dv)
+                    if same != (U.canon(ft, fv) == U.canon(ft, dv)):
+                        self.used.add('real-default-float')
+                    if same:
+                        continue
+                elif pres == 'def' and U.canon(ft, fv) == U.canon(ft, dv):
                     continue
             elif emu and pres == 'opt' and self.emptyable(ft):
                 # any read of the component (the encoder's own included) makes it present-and-empty
-                fv = {}
+                fv = U.materialised_empty(U.base_of(ft))
                 if self.codec == 'BER':
                     self.used.add('emptyable-optional')
             else:
@@ -573,6 +593,42 @@ class PyWriter(Writer):
             mx = max([len(e) for e in encs] or [0])
             encs.sort(key=lambda e: e.ljust(mx, b'\x00'))
         return b''.join(encs)
+
+
+class EmuRaises(Exception):
+    """The emulated library behaviour is to raise (args[0] = exception class name, args[1] = finding)."""
+
+
+def py_real_float(r):
+    """float(Real) as the library computes it; raises EmuRaises where it raises OverflowError."""
+    if r == 0:
+        return 0.0
+    if r == 'inf':
+        return float('inf')
+    if r == '-inf':
+        return float('-inf')
+    _, m, b, e = r
+    try:
+        return float(m * pow(b, e))
+    except OverflowError:
+        raise EmuRaises('OverflowError', 'real-default-float')
+
+
+def py_time_trim(s):
+    """The CER/DER time canonicalisation as the library performs it (known finding: every '0' among the
+    first fraction digits is deleted, not only trailing ones)."""
+    n = list(s)
+    if '.' not in n:
+        return s
+    i = min(n.index('.') + 4, len(n) - 1)
+    while n[i] != '.':
+        if n[i] == '0':
+            del n[i]
+        i -= 1
+    i += 1
+    if i < len(n) and n[i] == 'Z':
+        del n[i - 1]
+    return ''.join(n)
 
 
 def like_pyasn1(T, v, codec='BER', defMode=True, chunk=0, emulate=()):
